@@ -309,6 +309,7 @@ func cascadeRule(c *Ctx, rule string) {
 			return
 		}
 	}
+	paths = nilByConds(paths) // `return value, err` under `err == nil` returns (value, nil)
 	field := c.Info.Defs[fd.Type.Params.List[0].Names[0]]
 	// stage of a decision term
 	stageOf := func(t Term) (string, *TCall) {
@@ -736,6 +737,29 @@ func c16Guard(c *Ctx) {
 			if msg != "" {
 				break
 			}
+			if ind == nil && len(p.Effects()) == 0 && p.End == "return" && len(p.Vals) == 1 {
+				// a fast path for the empty container: the path decided self.String() == "[]" (or "{}") and returns that very text.
+				// json.Indent leaves the text of an empty array / object as it is, whatever the indentation unit (trusted table, DESIGN §7)
+				short := false
+				for _, cd := range p.Conds() {
+					b, isB := cd.T.(TBin)
+					if !isB || b.Op != token.EQL || !cd.Truth {
+						continue
+					}
+					for _, pair := range [][2]Term{{b.X, b.Y}, {b.Y, b.X}} {
+						lit, isLit := isConstStringTerm(pair[1])
+						nm, args, isSelf := v.selfCall(pair[0])
+						if isLit && (lit == "[]" || lit == "{}") && isSelf && (nm == "String" || nm == "serialize") && len(args) == 0 {
+							if rs, isC := isConstStringTerm(p.Vals[0]); (isC && rs == lit) || sameTerm(eraseEpochs(p.Vals[0]), eraseEpochs(pair[0])) {
+								short = true
+							}
+						}
+					}
+				}
+				if short {
+					continue
+				}
+			}
 			if ind == nil || len(ind.Args) != 4 {
 				msg = "the text is not re-indented by json.Indent"
 				break
@@ -803,7 +827,7 @@ func c16Guard(c *Ctx) {
 			}
 			ret, ok := (TCall{}), false
 			if p.End == "return" && len(p.Vals) == 1 {
-				ret, ok = p.Vals[0].(TCall)
+				ret, ok = c.normByteStrings(p.Vals[0]).(TCall) // string(buffer.Bytes()) reads as buffer.String()
 			}
 			if !ok || ret.Fun == nil || ret.Fun.FullName() != "(*bytes.Buffer).String" || ret.Recv == nil || !sameBuffer(ret.Recv, buf) {
 				msg = "the result is not the destination buffer's content"
